@@ -213,6 +213,37 @@ def rpd_random(r):
     return rpd_line(wcfg, b12, con, msgs)
 
 
+def strip_hashes(out):
+    """C output -> what the model prints (the ciphertext hashes of the nonce tags removed)"""
+    import re
+    return re.sub(r"#[0-9a-f]{8}", "", out)
+
+
+def nonce_tags(o):
+    """step result -> (result without tags, [(kind 'o'|'r', own piv or None, hash)])"""
+    core, _, rest = o.partition("~")
+    tags = []
+    for t in (rest.split("~") if rest else []):
+        body, _, h = t.partition("#")
+        tags.append((body[0], body[1:] or None, h))
+    return core, tags
+
+
+def oracle_nonces(steps):
+    """steps: [(request ident, [(kind, ownpiv, hash)])] - one (Sender Key, nonce) for two different
+    ciphertexts is a nonce reuse"""
+    seen = {}
+    bad = []
+    for i, (req, tags) in enumerate(steps):
+        for kind, own, h in tags:
+            ident = ("own", own) if kind == "o" else ("req",) + tuple(req)
+            if ident in seen and seen[ident][1] != h:
+                bad.append("step %d: the node protected two different messages with the same nonce (%s; first at step %d)"
+                           % (i, "its own Partial IV %s" % own if kind == "o" else "the nonce of request PIV %x" % req[-1], seen[ident][0]))
+            seen.setdefault(ident, (i, h))
+    return bad
+
+
 def parse_rpd(line, out):
     """-> (wcfg, b12, [(ctx, kind, seq, verdict, (state ctx0, state ctx1))]) or None"""
     t = line.split()
@@ -224,6 +255,7 @@ def parse_rpd(line, out):
     for m, o in zip(msgs, res):
         who = 1 if m[0] == "2" else 0
         mm = m[who:]
+        o = nonce_tags(o)[0]
         parts = o.split("/")
         f = parts[0].split(",")
         if len(f) != 4:
@@ -240,7 +272,7 @@ def oracle_rpd(line, out):
     if p is None:
         return ["unparsable result: %s" % out[:80]]
     wcfg, b12, steps = p
-    bad = []
+    bad = oracle_nonces([((st[0], st[2]), nonce_tags(o)[1]) for st, o in zip(steps, out.split())])
     accepted = ([], [])
     prev = (("0", "0", "1"), ("0", "0", "1"))
     for i, (who, kind, seq, verdict, st) in enumerate(steps):
@@ -396,6 +428,8 @@ def oracle_rpe(line, out):
     if ok != nreq:
         bad.append("%d requests sent through the client API, %d answered 2.05 (codes %s)"
                    % (nreq, ok, summ.get("codes")))
+    if int(summ.get("noncedup", "0")) != 0:
+        bad.append("the server protected two different datagrams with the same nonce")
     if int(summ.get("spivdup", "0")) != 0:
         bad.append("the server protected two datagrams with the same Partial IV")
     if int(summ.get("handler", "0")) < nreq:
@@ -485,11 +519,11 @@ def oracle_rpx(line, out):
     if len(res) != len(ops) or not ops:
         return ["unparsable result: %s" % out[:80]]
     wcfg = t[2]
-    bad = []
+    bad = oracle_nonces([((tok_seq(op),), nonce_tags(o)[1]) for op, o in zip(ops, res)])
     accepted = []
     prev = ("0", "0", "1")
     for i, (op, o) in enumerate(zip(ops, res)):
-        f = o.split(",")
+        f = nonce_tags(o)[0].split(",")
         if len(f) != 4:
             return ["unparsable result: %s" % out[:80]]
         kind, seq, verdict, st = op[0], tok_seq(op), f[0], tuple(f[1:])
